@@ -7,6 +7,12 @@ import CaddyModel.C07.Lemmas
 
 namespace CaddyModel.C07
 
+/-- the name under which the bytes of a served file / sidecar were opened -/
+def Outcome.servedName : Outcome → Option Bytes
+  | .file p _ => some p
+  | .sidecar p _ _ => some p
+  | _ => none
+
 /-- what has to be true of the filesystem and the configuration for an outcome to be produced -/
 def Justified (fs : FS) (c : Cfg) (_path : Bytes) : Outcome → Prop
   | .file p id => UnderS c.rootC p ∧ c.hidden p = false ∧ fs p = .file id
@@ -15,11 +21,13 @@ def Justified (fs : FS) (c : Cfg) (_path : Bytes) : Outcome → Prop
   | .notFound => c.passThru = false
   | .passThru => c.passThru = true
   | .forbidden => ∃ n, fs n = .perm
-  | .serverError => ∃ n, fs n = .other
+  | .serverError => ∃ n, fs n = .other ∨ (c.etagExt ≠ [] ∧ fs n ≠ .missing ∧ ∀ id, fs n ≠ .file id)
   | .unavailable => False
   | .sidecar p id enc =>
     ∃ f suf, p = f ++ suf ∧ (enc, suf) ∈ c.pre ∧ enc ∈ c.accepted ∧
       UnderS c.rootC f ∧ c.hidden f = false ∧ (∃ id0, fs f = .file id0) ∧ fs p = .file id ∧ c.hidden p = false
+  | .withEtag o n id =>
+    Justified fs c _path o ∧ ∃ f ext, o.servedName = some f ∧ ext ∈ c.etagExt ∧ n = f ++ ext ∧ fs n = .file id
 
 theorem notFoundOut_justified (fs : FS) (c : Cfg) (path : Bytes) : Justified fs c path (notFoundOut c) := by
   unfold notFoundOut
@@ -30,6 +38,7 @@ theorem openAndServe_of_file {fs : FS} {c : Cfg} {f : Bytes} {id : Nat} (h : fs 
   simp [openAndServe, h]
 
 theorem withTrace_fst' {α : Type} (p : Bytes) (r : Traced α) : (withTrace p r).1 = r.1 := rfl
+theorem appendTrace_fst' {α : Type} (t : List Bytes) (r : Traced α) : (appendTrace t r).1 = r.1 := rfl
 
 theorem sidecarSuffix_mem {c : Cfg} {ae suf : Bytes} (h : sidecarSuffix c ae = some suf) : (ae, suf) ∈ c.pre := by
   unfold sidecarSuffix at h
@@ -43,8 +52,10 @@ theorem sidecarSuffix_mem {c : Cfg} {ae suf : Bytes} (h : sidecarSuffix c ae = s
     cases x with
     | mk a b => simp at hp h; subst hp; subst h; exact hm
 
-/-- `n` is `f` plus the suffix of a configured precompressor -/
-def SidecarName (c : Cfg) (f n : Bytes) : Prop := ∃ ae suf, (ae, suf) ∈ c.pre ∧ n = f ++ suf
+/-- `n` is `f` plus the suffix of a configured precompressor and / or a configured etag extension -/
+def SidecarName (c : Cfg) (f n : Bytes) : Prop :=
+  (∃ ae suf, (ae, suf) ∈ c.pre ∧ n = f ++ suf) ∨ (∃ ext, ext ∈ c.etagExt ∧ n = f ++ ext) ∨
+  (∃ ae suf ext, (ae, suf) ∈ c.pre ∧ ext ∈ c.etagExt ∧ n = f ++ suf ++ ext)
 
 theorem findSidecar_spec (fs : FS) (c : Cfg) (f : Bytes) : ∀ (l : List Bytes) (p : Bytes) (id : Nat) (ae : Bytes),
     (findSidecar fs c f l).1 = some (p, id, ae) →
@@ -86,11 +97,88 @@ theorem findSidecar_trace (fs : FS) (c : Cfg) (f : Bytes) : ∀ (l : List Bytes)
       split at h
       · exact ih n h
       · split at h
-        · simp at h; exact ⟨a, suf, sidecarSuffix_mem hs, h⟩
+        · simp at h; exact Or.inl ⟨a, suf, sidecarSuffix_mem hs, h⟩
         · simp [withTrace] at h
           rcases h with h | h
-          · exact ⟨a, suf, sidecarSuffix_mem hs, h⟩
+          · exact Or.inl ⟨a, suf, sidecarSuffix_mem hs, h⟩
           · exact ih n h
+
+theorem findEtag_some (fs : FS) (name : Bytes) : ∀ (exts : List Bytes) (n : Bytes) (id : Nat),
+    (findEtag fs name exts).1 = some (some (n, id)) → ∃ ext, ext ∈ exts ∧ n = name ++ ext ∧ fs n = .file id := by
+  intro exts
+  induction exts with
+  | nil => intro n id h; simp [findEtag] at h
+  | cons e rest ih =>
+    intro n id h
+    unfold findEtag at h
+    split at h
+    · rw [withTrace_fst'] at h
+      obtain ⟨ext, h1, h2, h3⟩ := ih n id h
+      exact ⟨ext, by simp [h1], h2, h3⟩
+    · rename_i id' hf
+      simp at h
+      obtain ⟨rfl, rfl⟩ := h
+      exact ⟨e, by simp, rfl, hf⟩
+    · simp at h
+
+theorem findEtag_none (fs : FS) (name : Bytes) : ∀ (exts : List Bytes),
+    (findEtag fs name exts).1 = none → exts ≠ [] ∧ ∃ n, fs n ≠ .missing ∧ ∀ id, fs n ≠ .file id := by
+  intro exts
+  induction exts with
+  | nil => intro h; simp [findEtag] at h
+  | cons e rest ih =>
+    intro h
+    refine ⟨by simp, ?_⟩
+    unfold findEtag at h
+    split at h
+    · rw [withTrace_fst'] at h
+      exact (ih h).2
+    · simp at h
+    · rename_i h1 h2
+      exact ⟨name ++ e, h1, h2⟩
+
+theorem findEtag_trace (fs : FS) (name : Bytes) : ∀ (exts : List Bytes) (n : Bytes),
+    n ∈ (findEtag fs name exts).2 → ∃ ext, ext ∈ exts ∧ n = name ++ ext := by
+  intro exts
+  induction exts with
+  | nil => intro n h; simp [findEtag] at h
+  | cons e rest ih =>
+    intro n h
+    unfold findEtag at h
+    split at h
+    · simp [withTrace] at h
+      rcases h with h | h
+      · exact ⟨e, by simp, h⟩
+      · obtain ⟨ext, h1, h2⟩ := ih n h
+        exact ⟨ext, by simp [h1], h2⟩
+    · simp at h; exact ⟨e, by simp, h⟩
+    · simp at h; exact ⟨e, by simp, h⟩
+
+theorem withEtagOf_justified {fs : FS} {c : Cfg} (path name : Bytes) (o : Outcome)
+    (ho : Justified fs c path o) (hn : o.servedName = some name) :
+    Justified fs c path (withEtagOf fs c name o).1 := by
+  unfold withEtagOf
+  split
+  · rename_i t he
+    have : (findEtag fs name c.etagExt).1 = none := by rw [he]
+    obtain ⟨h1, n, h2, h3⟩ := findEtag_none fs name c.etagExt this
+    exact ⟨n, Or.inr ⟨h1, h2, h3⟩⟩
+  · exact ho
+  · rename_i n id t he
+    have : (findEtag fs name c.etagExt).1 = some (some (n, id)) := by rw [he]
+    obtain ⟨ext, h1, h2, h3⟩ := findEtag_some fs name c.etagExt n id this
+    exact ⟨ho, name, ext, hn, h1, h2, h3⟩
+
+theorem withEtagOf_trace {fs : FS} {c : Cfg} (name : Bytes) (o : Outcome) :
+    ∀ n ∈ (withEtagOf fs c name o).2, ∃ ext, ext ∈ c.etagExt ∧ n = name ++ ext := by
+  intro n hn
+  unfold withEtagOf at hn
+  split at hn <;> (rename_i he; exact findEtag_trace fs name c.etagExt n (by rw [he]; exact hn))
+
+theorem withEtagOf_ne_redirect {fs : FS} {c : Cfg} (name : Bytes) (o : Outcome) (x : Option Bytes)
+    (ho : o ≠ .redirect x) : (withEtagOf fs c name o).1 ≠ .redirect x := by
+  unfold withEtagOf
+  split <;> simp [ho]
 
 theorem serveContent_justified {fs : FS} {c : Cfg} {f : Bytes} {id : Nat} (path : Bytes)
     (h : fs f = .file id) (hu : UnderS c.rootC f) (hh : c.hidden f = false) :
@@ -100,9 +188,12 @@ theorem serveContent_justified {fs : FS} {c : Cfg} {f : Bytes} {id : Nat} (path 
   · rename_i p id' ae t hfs
     have : (findSidecar fs c f c.accepted).1 = some (p, id', ae) := by rw [hfs]
     obtain ⟨suf, h1, h2, h3, h4, h5⟩ := findSidecar_spec fs c f c.accepted p id' ae this
-    exact ⟨f, suf, h1, h2, h3, hu, hh, ⟨id, h⟩, h4, h5⟩
-  · rw [openAndServe_of_file h]
-    exact ⟨hu, hh, h⟩
+    rw [appendTrace_fst']
+    exact withEtagOf_justified path p _ ⟨f, suf, h1, h2, h3, hu, hh, ⟨id, h⟩, h4, h5⟩ rfl
+  · rw [openAndServe_of_file h, appendTrace_fst']
+    simp only []
+    rw [appendTrace_fst']
+    exact withEtagOf_justified path f _ ⟨hu, hh, h⟩ rfl
 
 theorem serveContent_trace {fs : FS} {c : Cfg} {f : Bytes} {id : Nat} (h : fs f = .file id) :
     ∀ n ∈ (serveContent fs c f).2, n = f ∨ SidecarName c f n := by
@@ -110,13 +201,23 @@ theorem serveContent_trace {fs : FS} {c : Cfg} {f : Bytes} {id : Nat} (h : fs f 
   unfold serveContent at hn
   split at hn
   · rename_i p id' ae t hfs
-    right; exact findSidecar_trace fs c f c.accepted n (by rw [hfs]; exact hn)
-  · rename_i t hfs
-    rw [openAndServe_of_file h] at hn
+    have hsp : (findSidecar fs c f c.accepted).1 = some (p, id', ae) := by rw [hfs]
+    obtain ⟨suf, h1, h2, _⟩ := findSidecar_spec fs c f c.accepted p id' ae hsp
     simp only [appendTrace, List.mem_append] at hn
     rcases hn with hn | hn
     · right; exact findSidecar_trace fs c f c.accepted n (by rw [hfs]; exact hn)
+    · obtain ⟨ext, he, e⟩ := withEtagOf_trace p _ n hn
+      right; right; right
+      exact ⟨ae, suf, ext, h2, he, by rw [e, h1]⟩
+  · rename_i t hfs
+    rw [openAndServe_of_file h] at hn
+    simp only [appendTrace, List.mem_append] at hn
+    rcases hn with hn | hn | hn
+    · right; exact findSidecar_trace fs c f c.accepted n (by rw [hfs]; exact hn)
     · left; simpa using hn
+    · obtain ⟨ext, he, e⟩ := withEtagOf_trace f _ n hn
+      right; right; left
+      exact ⟨ext, he, e⟩
 
 theorem serveFile_justified {fs : FS} {c : Cfg} {f : Bytes} {id : Nat} (imp : Bool) (path orig : Bytes)
     (h : fs f = .file id) (hu : UnderS c.rootC f) : Justified fs c path (serveFile fs c f imp path orig).1 := by
@@ -242,7 +343,7 @@ theorem serve_justified (fs : FS) (c : Cfg) (path orig : Bytes) (hfs : fs [] = .
       · rename_i r t h1 h2 h3 hm
         have hr : (mapDirOpenError fs (fs (requestFile c path)) (requestFile c path)).1 = r := by rw [hm]
         rw [hr] at hres
-        refine ⟨requestFile c path, ?_⟩
+        refine ⟨requestFile c path, Or.inl ?_⟩
         rcases hres with hres | hres
         · rw [← hres]
           cases hrr : r with
@@ -404,8 +505,10 @@ theorem serveContent_ne_redirect {fs : FS} {c : Cfg} {f : Bytes} {id : Nat} (h :
     (serveContent fs c f).1 ≠ .redirect x := by
   unfold serveContent
   split
-  · simp
-  · rw [openAndServe_of_file h]; simp [appendTrace]
+  · rw [appendTrace_fst']; exact withEtagOf_ne_redirect _ _ x (by simp)
+  · rw [openAndServe_of_file h, appendTrace_fst']
+    simp only []
+    rw [appendTrace_fst']; exact withEtagOf_ne_redirect _ _ x (by simp)
 
 theorem serveNode_redirect {fs : FS} {c : Cfg} {f : Bytes} {info : Node} (imp : Bool) (path orig : Bytes)
     (h : fs f = info) (hk : (∃ id, info = .file id) ∨ (∃ es, info = .dir es)) (x : Option Bytes)
